@@ -2,6 +2,7 @@ package main
 
 import (
 	"fmt"
+	"go/constant"
 	"go/token"
 	"go/types"
 
@@ -459,9 +460,18 @@ func (vc *FuncVC) execBinOp(st *State, reach Term, ins *ssa.BinOp) {
 		case token.NEQ:
 			vc.vals[ins] = &Val{T: Ne(x, y), GoType: rt}
 		case token.SHL:
-			// y is an Int shift count
-			vc.unsupported("shift of Condition")
-			vc.vals[ins] = vc.freshVal("condshift", rt)
+			// y is an Int shift count; only literal counts are modelled (Go: counts >= 32 give 0)
+			if c, ok := ins.Y.(*ssa.Const); ok && c.Value != nil {
+				n, _ := constant.Uint64Val(constant.ToInt(c.Value))
+				if n >= 32 {
+					vc.vals[ins] = &Val{T: BVLit(0), GoType: rt}
+				} else {
+					vc.vals[ins] = &Val{T: app(SBV, "bvshl", x, BVLit(uint32(n))), GoType: rt}
+				}
+			} else {
+				vc.unsupported("shift of Condition by a non-constant count")
+				vc.vals[ins] = vc.freshVal("condshift", rt)
+			}
 		default:
 			vc.unsupported("Condition op %s", ins.Op)
 			vc.vals[ins] = vc.freshVal("condop", rt)
